@@ -185,6 +185,7 @@ func (bkt *Bucket) open(bucketID int, home string) (err error) {
 		id := ids[i]
 		if id.Chunk > maxdata {
 			logger.Errorf("htree beyond data: htree=%s, maxdata=%d", treepath, maxdata)
+			verifPoint("fs.remove", treepath)
 			utils.Remove(treepath)
 		} else {
 			if bkt.TreeID.isLarger(id.Chunk, id.Split) {
@@ -197,6 +198,7 @@ func (bkt *Bucket) open(bucketID int, home string) (err error) {
 				}
 			} else {
 				logger.Errorf("found old htree: htree=%s, currenct_htree_id=%v", treepath, bkt.TreeID)
+				verifPoint("fs.remove", treepath)
 				utils.Remove(treepath)
 			}
 		}
@@ -318,6 +320,7 @@ func (bkt *Bucket) getAllIndex(suffix string) (paths []string, ids []HintID) {
 func (bkt *Bucket) removeHtree() {
 	paths, _ := bkt.getAllIndex(HTREE_SUFFIX)
 	for _, p := range paths {
+		verifPoint("fs.remove", p)
 		utils.Remove(p)
 	}
 	bkt.TreeID = HintID{0, 0}
@@ -611,6 +614,7 @@ func (bkt *Bucket) loadGCHistroy() (err error) {
 func (bkt *Bucket) dumpGCHistroy() {
 
 	p := bkt.getGCHistoryPath()
+	verifPoint("fs.writefile", p, bkt.NextGCChunk)
 	fd, err := os.OpenFile(p, os.O_CREATE|os.O_WRONLY|os.O_TRUNC, 0644)
 	if err != nil {
 		logger.Errorf("%v", err)
